@@ -303,12 +303,56 @@ theorem run_eq (m : Int) (cands : List (Cand κ α)) :
     run m cands = cands.foldl stepC { maxAnswers := m } := rfl
 
 theorem foldl_stepC (cands : List (Cand κ α)) : ∀ w : State κ α,
+    w.v4Count < 4294967296 → w.v6Count < 4294967296 →
     (cands.foldl stepC w).maxAnswers = w.maxAnswers ∧
     (cands.foldl stepC w).v4 = (candsOf typeA cands).foldl (addFam w.maxAnswers) w.v4 ∧
     (cands.foldl stepC w).v6 = (candsOf typeAAAA cands).foldl (addFam w.maxAnswers) w.v6 ∧
     (cands.foldl stepC w).v4Count = (w.v4Count + (candsOf typeA cands).length) % 4294967296 ∧
-    (cands.foldl stepC w).v6Count = (w.v6Count + (candsOf typeAAAA cands).length) % 4294967296 ∨
-    False ∨ (w.v4Count ≥ 4294967296 ∨ w.v6Count ≥ 4294967296) := by
-  sorry
+    (cands.foldl stepC w).v6Count = (w.v6Count + (candsOf typeAAAA cands).length) % 4294967296 := by
+  induction cands with
+  | nil =>
+    intro w h4 h6
+    simp only [List.foldl_nil, candsOf, List.filter_nil, List.map_nil, List.length_nil, Nat.add_zero]
+    and_intros <;> first | trivial | rfl | omega
+  | cons c cands ih =>
+    intro w h4 h6
+    simp only [List.foldl_cons]
+    by_cases hA : c.qtype = typeA
+    · have hs : stepC w c = { w with v4Count := (w.v4Count + 1) % 4294967296,
+                                     v4 := addFam w.maxAnswers w.v4 c.item } := by
+        simp [stepC, State.add, hA, typeA, typeAAAA]
+      have hne : ¬ c.qtype = typeAAAA := by rw [hA]; decide
+      obtain ⟨i1, i2, i3, i4, i5⟩ := ih (stepC w c) (by rw [hs]; simp only; omega) (by rw [hs]; exact h6)
+      rw [i1, i2, i3, i4, i5, hs]
+      simp only [candsOf, List.filter_cons, hA, decide_true, if_true,
+        List.map_cons, List.foldl_cons, List.length_cons]
+      and_intros <;> first | trivial | rfl | omega
+    · by_cases hB : c.qtype = typeAAAA
+      · have hs : stepC w c = { w with v6Count := (w.v6Count + 1) % 4294967296,
+                                       v6 := addFam w.maxAnswers w.v6 c.item } := by
+          simp [stepC, State.add, hB, typeA, typeAAAA]
+        obtain ⟨i1, i2, i3, i4, i5⟩ := ih (stepC w c) (by rw [hs]; exact h4) (by rw [hs]; simp only; omega)
+        rw [i1, i2, i3, i4, i5, hs]
+        simp only [candsOf, List.filter_cons, hB, decide_true, if_true,
+          List.map_cons, List.foldl_cons, List.length_cons]
+        and_intros <;> first | trivial | rfl | omega
+      · have hs : stepC w c = w := by
+          simp [stepC, State.add, hA, hB]
+        obtain ⟨i1, i2, i3, i4, i5⟩ := ih (stepC w c) (by rw [hs]; exact h4) (by rw [hs]; exact h6)
+        rw [i1, i2, i3, i4, i5, hs]
+        simp only [candsOf, List.filter_cons, hA, hB, decide_false, Bool.false_eq_true, if_false]
+        and_intros <;> trivial
+
+/-- the state after the callers' loop, family by family -/
+theorem run_spec (m : Int) (cands : List (Cand κ α)) :
+    (run m cands).v4 = runFam m (candsOf typeA cands) ∧
+    (run m cands).v6 = runFam m (candsOf typeAAAA cands) ∧
+    (run m cands).v4Count = (candsOf typeA cands).length % 4294967296 ∧
+    (run m cands).v6Count = (candsOf typeAAAA cands).length % 4294967296 := by
+  obtain ⟨_, i2, i3, i4, i5⟩ := foldl_stepC cands ({ maxAnswers := m } : State κ α) (by simp) (by simp)
+  rw [run_eq]
+  refine ⟨i2, i3, ?_, ?_⟩
+  · rw [i4]; simp
+  · rw [i5]; simp
 
 end DnsVerif.Wrs
